@@ -44,8 +44,10 @@ CHECKS = {
             "Every history runs under a scripted resolver with Rust type parameters and entry points decorrelated from the "
             "scripted shapes; the trace spec requires the recorded type info to be the scripted one and equal layouts for equal "
             "shape histories.",
-            "hyper-property over pairs of traces, decided with a memo variable in the trace specification",
-            TRACE_TECH % ("Builder.tla, TypeTable.tla", "BuilderTrace.tla"), "7 C18"),
+            "hyper-property over pairs of traces, decided with a memo variable in the trace specification; type tables: the "
+            "registered / JSON-reloaded / doctored (foreign-target-like) table must answer exactly what was registered, typed and by name, "
+            "and a layout built under the doctored table must use its answers (spec/TypeTable.tla, TypeTrace.tla)",
+            TRACE_TECH % ("Builder.tla, TypeTable.tla", "BuilderTrace.tla, TypeTrace.tla"), "7 C18"),
     "C19": ("builder", "model_checking",
             "Each history is built twice in one process and once in a separately started process; the trace spec requires equal "
             "offsets and equal hashes of generate() / Display text for the runs of one group.",
@@ -124,6 +126,13 @@ CHECKS = {
             "finite matrix over the lab palette, enumerated completely; x86_64 only (foreign-target tables emulated by perturbation)",
             "TLC-enumerated case matrix (spec/Codegen.tla, MCCompile.tla) + rustc verdicts on generated modules validated by TLC (spec/CompileTrace.tla)",
             "7 C11"),
+    "C17": ("types", "exploration",
+            "TLC enumerates the type grammar to a fixed depth with several spellings per type (spec/TypeName.tla); the real host resolver "
+            "records a name for each; rustc decides, in a module that imports nothing, whether `fn(T) -> <recorded name>` type-checks; "
+            "every spelling is looked up in a real table filled with the same types; TLC validates the stream (spec/TypeTrace.tla).",
+            "bounded grammar depth; rustc is the oracle of denotation, the specification supplies the terms, spellings and expected hits",
+            "TLC-enumerated type terms (spec/TypeName.tla) + rustc type-equality probes + TLC validation (spec/TypeTable.tla, TypeTrace.tla)",
+            "7 C17"),
 }
 
 PENDING_REASON = "check not built yet (framework under construction); see DESIGN.md section 7"
@@ -179,6 +188,9 @@ def main():
                                "(harness/genlab_gen, genlab_run, genlab_compile) + TLC trace validation (spec/RecordTrace.tla)"},
             {"name": "static", "path": "tools/static_pipe.py", "serves_properties": ["C11"],
              "kind_free_text": "TLC case enumeration + rustc compile verdicts on generated modules (harness/genlab_probe) + TLC validation"},
+            {"name": "types", "path": "tools/types_pipe.py", "serves_properties": ["C17", "C18"],
+             "kind_free_text": "TLC term enumeration (spec/TypeName.tla) + real resolvers / tables (harness/types_lab) + rustc probes "
+                               "(harness/types_probe) + TLC validation (spec/TypeTrace.tla)"},
         ],
         "checks": checks,
         "notes": "All checks share cached pipeline stages keyed by the content hash of /repo and /verif sources, tier and seed "
